@@ -70,6 +70,28 @@ CHECKS = {
              "Interpretations I1-I5 are in the module header. One known finding (numbers mixed with strings are stringified).",
         technique="TLA+ codec specs (decision procedure + normal form) + TLC; one real HDF5 round trip per TLC case; TLC trace validation of recorded collections",
     ),
+    "C14": dict(
+        text="FuelShuffle.tla models the core (children, location table, name tables, spent fuel pool, fresh feed, purged set, block lists with stationary flags, "
+             "move counters) with one action per fuel-management operation (swap, cascade, discharge swap, add, remove/purge, refusals); inventory, one-per-location, "
+             "lookup truthfulness, content and block-order clauses are invariants / action properties checked exhaustively by TLC; every explored edge is executed "
+             "through a real FuelHandler / Core / SpentFuelPool on generated hex-full, hex-third and Cartesian cores; random 50-event shuffle histories are "
+             "validated by TLC.",
+        design="3/C14 and 9",
+        note="Trusted: TLC, the generated small cores (harness/gen_core.py), exact-float block fingerprints. Depth-bounded (4/5) because move counters grow. "
+             "Bare moveTo to an empty cell and Core.add without any locator are outside the operation alphabet.",
+        technique="TLA+ fuel-shuffling spec + TLC; edge replay through a real FuelHandler/Core/SFP; TLC trace validation of random shuffle histories",
+    ),
+    "C11": dict(
+        text="AxialRemesh.tla (exact rationals over integer mesh points: MakeUniform, Solve, MapBack, Snap with the three conservation flags), Resample.tla, "
+             "FilterMesh.tla/MeshFilterDefs.tla (line-by-line transcription of _filterMesh and the decusping pipeline) and CommonMesh.tla state conservation of "
+             "atoms and integrated totals, height-weighted means, peaks, round-trip restoration, interval partition and the common-mesh guarantees as invariants; "
+             "TLC checks all mesh pairs over small heights; every distinct TLC state is rebuilt on a real HexAssembly / core and the full observation compared; "
+             "resampleStepwise, _filterMesh and generateCommonMesh are called once per enumerated case.",
+        design="3/C11 and 9",
+        note="Trusted: TLC, the assembly generator, float comparison rtol 1e-9 (1e-7 on meshes jittered by 1e-9 cm). No trace direction (floats vs exact rationals). "
+             "Whole-reactor convert/applyStateToOriginal not covered.",
+        technique="TLA+ exact-rational remeshing/filter specs + TLC; every TLC state replayed on real assemblies; one real call per enumerated filter/resample case",
+    ),
 }
 
 NOT_YET = "no specification-bound check has been built for this property yet in this session (planned, see DESIGN.md section 3)"
